@@ -258,17 +258,29 @@ def gen_walk(rng, m, holders, steps):
 
 
 def gen_ceremonies(rng, m, holders, budget):
+    """Chains of m (and m + 1) distinct signer wallets: every signing order x every combination of hand-off forms while
+    that is a small set, a seeded sample of it otherwise; the rest of the budget are random walks."""
     W = len(holders)
     out = []
-    combos = []
-    for L in sorted({min(W, m), min(W, m + 1)}):
-        for order in itertools.permutations(range(1, W + 1), L):
-            for forms in itertools.product(FORMS, repeat=L - 1):
-                combos.append((order, forms))
-    rng.shuffle(combos)
-    # every form on the first hop and every first signer at least once, then as many as the budget allows
     nsys = max(1, budget * 2 // 3)
-    for i, (order, forms) in enumerate(combos[:nsys]):
+    lengths = sorted({min(W, m), min(W, m + 1)})
+    size = 0
+    for L in lengths:
+        cnt = 4 ** (L - 1)
+        for k in range(L):
+            cnt *= (W - k)
+        size += cnt
+    if size <= 5000:
+        combos = [(order, forms) for L in lengths for order in itertools.permutations(range(1, W + 1), L)
+                  for forms in itertools.product(FORMS, repeat=L - 1)]
+        rng.shuffle(combos)
+        combos = combos[:nsys]
+    else:
+        combos = []
+        for i in range(nsys):
+            L = lengths[i % len(lengths)]
+            combos.append((tuple(rng.sample(range(1, W + 1), L)), tuple(rng.choice(FORMS) for _ in range(L - 1))))
+    for i, (order, forms) in enumerate(combos):
         out.append(gen_chain(rng, m, holders, list(order), list(forms), spice=i % 2 == 1))
     while len(out) < budget - 2:
         out.append(gen_walk(rng, m, holders, rng.randrange(5, 12)))
